@@ -177,7 +177,7 @@ Plan doc_gen(const std::string &check, const std::string &tier, uint64_t seed, l
     bool c11 = check.compare(0, 3, "C11") == 0;
     bool c12 = check.compare(0, 3, "C12") == 0;
     if (c12) { p_bad = 0; plan.cfg["strict_enomem"] = 1; g.no_insert = check.find("insert") == std::string::npos; }
-    if (c11) { p_bad = rng.chance(0.5) ? 0.3 : 0.5; plan.cfg["assert_refused"] = 1; }
+    if (c11) { p_bad = rng.chance(0.5) ? 0.3 : 0.5; plan.cfg["assert_refused"] = 1; plan.cfg["c11"] = 1; }
     long nops;
     {
 	double u = rng.uni();
